@@ -1042,6 +1042,7 @@ fn gen_c05(r: &mut Rng, t: Tier, job: u64) -> Plan {
                     probe_cells: false,
                     pull_params: None,
                     pull_skip: 0,
+                    mixed_rows: 0,
                 }),
             },
         );
@@ -1075,6 +1076,7 @@ fn gen_c05(r: &mut Rng, t: Tier, job: u64) -> Plan {
                     probe_cells: false,
                     pull_params: None,
                     pull_skip: 0,
+                    mixed_rows: 0,
                 }),
             },
         );
@@ -1151,6 +1153,7 @@ fn gen_c12(r: &mut Rng, _t: Tier, _job: u64) -> Plan {
                     probe_cells: false,
                     pull_params: None,
                     pull_skip: 0,
+                    mixed_rows: 0,
                 }),
             },
         );
